@@ -51,7 +51,21 @@ Print Assumptions C01_no_chain.
    issuer` means: the signature bytes verify, symbolically, over the byte-exact DAG-JSON signing
    input of Signing.v / DagJson.v.  Check_TokenView.v compares view_block with the Go accessors on
    the root block of every token of every generated world. *)
-From Ucanto Require Import Ipld Cbor Formats Sig Did DagJson Signing TokenView.
+From Ucanto Require Import Ipld Cbor Formats Sig Did DagJson Signing TokenBytes TokenView.
+
+(* the typed decoding of a root block (TokenBytes.token_decode_typed: dag-cbor driving bindnode's
+   assemblers for the UCAN schema — unknown keys, missing required fields, null outside `exp`,
+   repeated keys inside `nb` refused; repeated fields last-wins, `att` concatenated; Go ints) reads
+   back every token the library can issue (Go ints, a present nb), where it agrees with the
+   generic reader of Formats.v up to norm_token: an optional list that is present but empty
+   (`prf: []`, which the library writes for a token without proofs) is absent in the Go model *)
+Theorem C01_bytes_typed_transport :
+  forall t : utoken,
+    wf_ipld (token_ipld t) = true -> in_budget (token_ipld t) = true -> token_typed_ok t = true ->
+    token_decode_typed (token_bytes t) = Some (norm_token (canon_token t))
+    /\ token_decode_typed (token_bytes t) = option_map norm_token (token_decode (token_bytes t)).
+Proof. exact token_typed_transport_both. Qed.
+Print Assumptions C01_bytes_typed_transport.
 
 (* the validator's token of an encoded block is the view of the token that was encoded, in the
    canonical form the decoder returns (caveat maps sorted) ... *)
@@ -60,7 +74,8 @@ Theorem C01_bytes_view_decode :
     wf_ipld (token_ipld t) = true -> in_budget (token_ipld t) = true ->
     option_map (view_token num keys valid alg_of) (token_decode (token_bytes t))
       = Some (view_token num keys valid alg_of (canon_token t))
-    /\ view_block num keys valid alg_of (token_bytes t) = view_token num keys valid alg_of (canon_token t).
+    /\ (token_typed_ok t = true -> u_fct t <> Some [] ->
+        view_block num keys valid alg_of (token_bytes t) = view_token num keys valid alg_of (canon_token t)).
 Proof. exact view_decode_both. Qed.
 Print Assumptions C01_bytes_view_decode.
 
@@ -128,7 +143,7 @@ Print Assumptions C01_bytes_tamper.
 (* C01_sound from block bytes.  B maps a link to the bytes of its block; the token store is
    store_of B = the view of every block that is present.  If Access authorizes, the authorization
    satisfies the specification P of C01_sound in which every signature clause `sig_ok t v` reads
-   (sig_ok_bytes): the delegation's block decodes (token_decode) to a token ut whose view is t,
+   (sig_ok_bytes): the delegation's block decodes (token_decode_typed) to a token ut whose view is t,
    whose issuer bytes decode to the verifier's DID, whose signature code is the verifier's, and
    whose signature bytes validate under the verifier's key over sign_payload ut — so that
    Signing.verify holds for a verifier of that key reporting the stated issuer.  Every token on
